@@ -1022,6 +1022,7 @@ type history struct {
 	Picks  [][]int  `json:"picks"` // per request: alternative index (0-based) of each external call, in call order
 	Mode   string   `json:"mode"`
 	Tail   bool     `json:"tail"` // record only the last request (every prefix is itself a history)
+	Delay  int      `json:"delay"` // kept-persister pairs: requests of the partner session served before this session's first one
 }
 
 // vise-run <program.json> <histories.ndjson> <trace-out> <mode L|P>: run given input histories (from TLC) on the real engine.
